@@ -431,6 +431,14 @@ pub fn ops(max: usize) -> BoxedStrategy<Vec<Op>> {
         1 => gv::time(),
         2 => gv::datetime(cfg),
         2 => small_value(),
+        // grids as the Hayson decoder may return them: row tags that are no declared column, no columns at all
+        2 => (prop::collection::vec(gv::dict_of(cfg, inner.clone(), 3), 1..4), any::<u8>()).prop_map(|(mut rows, k)| {
+            for (i, r) in rows.iter_mut().enumerate() {
+                r.insert(["a", "b", "dis", "id"][(k as usize + i) % 4].to_string(), if i % 2 == 0 { RVal::num(1.0) } else { RVal::Str("x".into()) });
+            }
+            let cols = if k % 3 == 0 { vec![] } else { vec![RCol { name: "a".into(), meta: if k % 2 == 0 { None } else { Some([("dis".to_string(), RVal::Str("A".into()))].into_iter().collect()) } }] };
+            RVal::Grid(RGrid { meta: None, cols, rows })
+        }),
         // lists of lists of lists (borrowed entry pointers can point two and three levels down)
         2 => prop::collection::vec(prop::collection::vec(prop::collection::vec(inner.clone(), 0..4).prop_map(RVal::List), 0..4).prop_map(RVal::List), 1..4).prop_map(RVal::List),
     ];
